@@ -111,6 +111,20 @@ def {n}_outer(data: bytes, a: int, i: int) -> List[{item}]:
 '''.format(n=name, item=item, o=outer.name, f=inner_field, inn=inner.name))
 
 
+def gen_flatten1(out, name, item, arr, ctor_args):
+    """items of a one-level array: [Ctor(fields of element k) for k < n]; a bare field name means a primitive array"""
+    if ctor_args is None:
+        expr = '%s_e_v(data, %s_pos(data, a, k - 1))' % (arr.name, arr.name)
+    else:
+        expr = '%s(%s)' % (item, ', '.join('%s_e_%s(data, %s_pos(data, a, k - 1))' % (arr.name, f, arr.name) for f in ctor_args))
+    out.append('''@rec
+def {n}(data: bytes, a: int, k: int) -> List[{item}]:
+    if k <= 0:
+        return []
+    return {n}(data, a, k - 1) + [{expr}]
+'''.format(n=name, item=item, expr=expr))
+
+
 HEADER = '''"""GENERATED by specs/grammar.py on every run -- do not edit.  Parser-side specification of Kafka responses."""
 from typing import List, Optional, Tuple
 
@@ -159,6 +173,38 @@ def generate():
     # OffsetFetchResponse v1: correlation_id:i32 [topic:str [partition:i32 offset:i64 metadata:str error:i16]]
     two_level('ofr', 'OffsetFetchResponse', [('partition', 'i32'), ('offset', 'i64'), ('metadata', 'bytes16'), ('error', 'i16')],
               [('o', 'topic'), ('i', 'partition'), ('i', 'offset'), ('i', 'metadata'), ('i', 'error')], 4)
+    # ---- flat and one-level responses ---------------------------------------------------------------
+    # FindCoordinator v0 response: correlation_id:i32 error:i16 node_id:i32 host:str port:i32
+    fc = [('correlation_id', 'i32'), ('error', 'i16'), ('node_id', 'i32'), ('host', 'str_ascii'), ('port', 'i32')]
+    gen_struct(out, 'fcr', fc)
+    RESP_SCHEMAS['fcr'] = fc
+    # Heartbeat / LeaveGroup v0 response: correlation_id:i32 error:i16
+    gen_struct(out, 'errr', [('correlation_id', 'i32'), ('error', 'i16')])
+    RESP_SCHEMAS['errr'] = [('correlation_id', 'i32'), ('error', 'i16')]
+    # SyncGroup v0 response: correlation_id:i32 error:i16 assignment:bytes
+    sg = [('correlation_id', 'i32'), ('error', 'i16'), ('assignment', 'bytes')]
+    gen_struct(out, 'sgr', sg)
+    RESP_SCHEMAS['sgr'] = sg
+    # JoinGroup v0 response: correlation_id:i32 error:i16 generation:i32 protocol:str leader:str member:str
+    #                        [member_id:str metadata:bytes]
+    jm = Arr('jgr_members', [('member_id', 'str_utf8'), ('metadata', 'bytes')])
+    jg = [('correlation_id', 'i32'), ('error', 'i16'), ('generation_id', 'i32'), ('group_protocol', 'str_utf8'),
+          ('leader_id', 'str_utf8'), ('member_id', 'str_utf8'), ('members', jm)]
+    gen_struct(out, 'jgr', jg)
+    gen_flatten1(out, 'jgr_member_items', '_JoinGroupResponseMember', jm, ['member_id', 'metadata'])
+    RESP_SCHEMAS['jgr'] = jg
+    # ConsumerProtocol subscription v0: version:i16 [topic:str] user_data:bytes
+    subs = Arr('cps_topics', 'str_utf8')
+    cps = [('version', 'i16'), ('subscriptions', subs), ('user_data', 'bytes')]
+    gen_struct(out, 'cps', cps)
+    gen_flatten1(out, 'cps_topic_items', 'str', subs, None)
+    RESP_SCHEMAS['cps'] = cps
+    # ApiVersions v0 response: correlation_id:i32 error:i16 [api_key:i16 min:i16 max:i16]
+    av = Arr('avr_apis', [('api_key', 'i16'), ('min_version', 'i16'), ('max_version', 'i16')])
+    avr = [('correlation_id', 'i32'), ('error_code', 'i16'), ('api_versions', av)]
+    gen_struct(out, 'avr', avr)
+    gen_flatten1(out, 'avr_api_items', 'ApiVersion', av, ['api_key', 'min_version', 'max_version'])
+    RESP_SCHEMAS['avr'] = avr
     return '\n'.join(out)
 
 
